@@ -360,15 +360,20 @@ pub fn random_project(t: &mut Tape, safe: bool, avoided: &mut u64) -> Proj {
     let n_cmds = t.range(1, 6);
     let mut commands: Vec<CmdM> = vec![];
     let reserved = names::js_reserved_legal_in_rust();
+    let reserved_us = names::js_reserved_with_underscore();
     let mut event_pool: Vec<String> = vec![];
     for ci in 0..n_cmds {
-        let mut name = if t.chance(1, 6) { t.choose(&reserved).to_string() } else { names::random_snake(t) };
+        let mut name = match t.pick(12) {
+            0 | 1 => t.choose(&reserved).to_string(),
+            2 => t.choose(&reserved_us).clone(),
+            _ => names::random_snake(t),
+        };
         if safe && (names::JS_RESERVED.contains(&unraw(&name)) || name.starts_with("r#")) {
             name = format!("cmd_{}", unraw(&name));
             *avoided += 1;
         }
         let camel = |s: &str| heck::ToLowerCamelCase::to_lower_camel_case(unraw(s));
-        if name.starts_with('_') || commands.iter().any(|c| camel(&c.name) == camel(&name)) || camel(&name).is_empty() {
+        if commands.iter().any(|c| camel(&c.name) == camel(&name)) || camel(&name).is_empty() {
             name = format!("command_{}", ci);
         }
         let n_params = t.pick(5);
@@ -419,6 +424,16 @@ pub fn random_project(t: &mut Tape, safe: bool, avoided: &mut u64) -> Proj {
             let n = t.range(1, 2);
             for _ in 0..n {
                 let mut ev = if !event_pool.is_empty() && t.chance(1, 4) && !safe { event_pool[t.pick(event_pool.len())].clone() } else { names::random_event_name(t) };
+                if !event_pool.is_empty() && !safe && t.chance(1, 5) {
+                    // near-twins of an existing name: '-'/'_' swapped, or with a numeric suffix
+                    let base = event_pool[t.pick(event_pool.len())].clone();
+                    ev = match t.pick(4) {
+                        0 => base.replace('-', "_"),
+                        1 => base.replace('_', "-"),
+                        2 => format!("{}-2", base),
+                        _ => format!("{}2", base),
+                    };
+                }
                 if safe {
                     if ev.contains(':') || ev.contains('/') || ev.chars().next().map_or(true, |c| c.is_ascii_digit()) || event_pool.iter().any(|o| o.replace('-', "_") == ev.replace('-', "_")) {
                         *avoided += 1;
